@@ -178,8 +178,9 @@ pub struct Compiler<'a, 'src> {
   /// The info on the current class
   class_attributes: Option<Ref<ClassAttributes>>,
 
-  /// The info on the current loop
-  try_attributes: Option<TryAttributes>,
+  /// The info on the try blocks of this function enclosing
+  /// the current position, innermost last
+  try_attributes: Vec<TryAttributes>,
 
   /// The info on the current loop
   loop_attributes: Option<LoopAttributes>,
@@ -292,7 +293,7 @@ impl<'a, 'src: 'a> Compiler<'a, 'src> {
       repl,
       class_attributes: None,
       loop_attributes: None,
-      try_attributes: None,
+      try_attributes: vec![],
       gc: Rc::new(RefCell::new(gc)),
       enclosing: None,
       local_tables: collections::Vec::new_in(alloc),
@@ -363,7 +364,7 @@ impl<'a, 'src: 'a> Compiler<'a, 'src> {
       repl: enclosing.repl,
       class_attributes: enclosing.class_attributes,
       loop_attributes: None,
-      try_attributes: None,
+      try_attributes: vec![],
       gc: Rc::clone(&enclosing.gc),
       locals: collections::Vec::new_in(enclosing.alloc),
       module_table: None,
@@ -454,7 +455,8 @@ impl<'a, 'src: 'a> Compiler<'a, 'src> {
       _ => self.emit_byte(SymbolicByteCode::Nil, line),
     }
 
-    if self.try_attributes.is_some() {
+    // a return leaves every enclosing try of this function
+    for _ in 0..self.try_attributes.len() {
       self.emit_byte(SymbolicByteCode::PopHandler, line);
     }
 
@@ -1600,7 +1602,8 @@ impl<'a, 'src: 'a> Compiler<'a, 'src> {
       Some(v) => {
         self.expr(v);
 
-        if self.try_attributes.is_some() {
+        // a return leaves every enclosing try of this function
+        for _ in 0..self.try_attributes.len() {
           self.emit_byte(SymbolicByteCode::PopHandler, v.end());
         }
 
@@ -1619,12 +1622,10 @@ impl<'a, 'src: 'a> Compiler<'a, 'src> {
     let new_local_count = self.drop_local_count(loop_attributes.scope_depth);
     self.drop_locals(continue_.end(), new_local_count);
 
-    // if our try catch is inside this loop
-    // a break will jump outside of it so we need to pop the handler
-    if let Some(try_attributes) = self.try_attributes {
-      if try_attributes.scope_depth > loop_attributes.scope_depth {
-        self.emit_byte(SymbolicByteCode::PopHandler, continue_.start());
-      }
+    // for every try catch inside this loop
+    // a continue will jump outside of it so we need to pop the handler
+    for _ in 0..self.try_count_inside(loop_attributes.scope_depth) {
+      self.emit_byte(SymbolicByteCode::PopHandler, continue_.start());
     }
 
     self.emit_byte(
@@ -1642,24 +1643,30 @@ impl<'a, 'src: 'a> Compiler<'a, 'src> {
     let new_local_count = self.drop_local_count(loop_attributes.scope_depth);
     self.drop_locals(break_.end(), new_local_count);
 
-    // if our try catch is inside this loop
+    // for every try catch inside this loop
     // a break will jump outside of it so we need to pop the handler
-    if let Some(try_attributes) = self.try_attributes {
-      if try_attributes.scope_depth > loop_attributes.scope_depth {
-        self.emit_byte(SymbolicByteCode::PopHandler, break_.start());
-      }
+    for _ in 0..self.try_count_inside(loop_attributes.scope_depth) {
+      self.emit_byte(SymbolicByteCode::PopHandler, break_.start());
     }
 
     self.emit_byte(SymbolicByteCode::Jump(loop_attributes.end), break_.start());
   }
 
+  /// How many enclosing try blocks begin inside the provided scope depth
+  fn try_count_inside(&self, scope_depth: usize) -> usize {
+    self
+      .try_attributes
+      .iter()
+      .filter(|try_attributes| try_attributes.scope_depth > scope_depth)
+      .count()
+  }
+
   /// Compile a try catch block
   fn try_(&mut self, try_: &'a ast::Try<'src>) {
     // set this try block as the current
-    let try_attributes = TryAttributes {
+    self.try_attributes.push(TryAttributes {
       scope_depth: self.scope_depth,
-    };
-    let enclosing_try = self.try_attributes.replace(try_attributes);
+    });
 
     let catch_label = self.label_emitter.emit();
 
@@ -1684,7 +1691,7 @@ impl<'a, 'src: 'a> Compiler<'a, 'src> {
     // provided variable. This was be implemented later
     let catch = try_.catches.first().expect("Expected catch block");
     self.emit_byte(SymbolicByteCode::Label(catch_label), catch.start());
-    self.try_attributes = enclosing_try;
+    self.try_attributes.pop();
 
     for catch in &try_.catches {
       self.catch(catch, try_end_label);
